@@ -8,10 +8,11 @@
      existing file path have that path as identity (the "local predicate skeleton" of loader.rs).
    * loading a text with identity t: declarations are table updates (flags are or-ed); for a predicate that is
      discontiguous or multifile ("extensible") the clauses previously loaded FROM THE SAME identity are retracted
-     (retract_local_clauses) and all clauses of the text are appended in order; for any other predicate that the
-     text defines (plain static, or dynamic only) the predicate is overwritten by the LAST contiguous run of its
-     clauses in the text (a directive or a clause of another predicate ends a run); a predicate that is only
-     declared keeps its clauses.  `:- op(P,T,N)` updates the entry (N, class of T); `:- initialization(G)` with a
+     (retract_local_clauses) and the text's clauses are appended in order (all of them for a discontiguous
+     predicate, only the last contiguous run for a predicate that is multifile but not discontiguous); for any other
+     predicate that the text defines (plain static, or dynamic only) the predicate is overwritten by the LAST
+     contiguous run of its clauses in the text (a directive or a clause of another predicate ends a run); a
+     predicate that is only declared keeps its clauses.  `:- op(P,T,N)` updates the entry (N, class of T); `:- initialization(G)` with a
      side-effect free G changes nothing.
    * the compiled code area only grows (old code is not reclaimed): `mcode`; this is why the statement is about
      `db_of`, not about the whole machine.
@@ -119,13 +120,18 @@ Definition other (t : tid) (tc : tid * clause) : bool := negb (N.eqb (fst tc) t)
 Definition mine (t : tid) (tc : tid * clause) : bool := N.eqb (fst tc) t.
 Definition tag (t : tid) (cs : list clause) : list (tid * clause) := map (fun c => (t, c)) cs.
 
+(* the clauses the text contributes to predicate k: all of them when k is discontiguous, else the last run only
+   (a later run of a predicate that is not discontiguous overwrites what the text itself added before) *)
+Definition contribution (fl : flags) (k : key) (s : text) : list clause :=
+  if fdisc fl then clauses_for k s else last_run k s [] false.
+
 (* what loading text s under identity t makes of predicate k *)
 Definition new_pred (t : tid) (s : text) (k : key) (old : pred) : pred :=
   let fl := flags_or (pflags old) (decl_flags k s) in
-  mkpred fl (if extensible fl then filter (other t) (pcls old) ++ tag t (clauses_for k s)
+  mkpred fl (if extensible fl then filter (other t) (pcls old) ++ tag t (contribution fl k s)
              else match clauses_for k s with
                   | [] => pcls old
-                  | _ => tag t (last_run k s [] false)
+                  | _ => tag t (contribution fl k s)
                   end).
 
 (* operators: the last declaration of an entry in the text wins *)
